@@ -80,6 +80,9 @@ Section Clone.
     cl_vecs : vecs s' = vecs s;
     cl_len : List.length (heap s') = List.length (heap s) }.
 
+  Lemma nth_error_Some_lt_local {A} (l0 : list A) k x : nth_error l0 k = Some x -> (k < List.length l0)%nat.
+  Proof. intros H. apply nth_error_Some. congruence. Qed.
+
   Lemma uadd_one a : 0 <= a -> a + 1 < W64 -> forall s, uadd cfg a 1 s = (Val (a + 1), s).
   Proof. intros H0 H1 s. unfold uadd. assert (E : (a + 1 <? W64) = true) by (apply Z.ltb_lt; lia). rewrite E. reflexivity. Qed.
 
@@ -317,5 +320,37 @@ Section Clone.
         split; [exact Hold2|]. split; [lia|].
         intros b1 bl1 b2 bl2 [A1 _] [A2 _]. destruct G1 as [B1 _], G2 as [B2 _].
         assert (b1 = b) by congruence. assert (b2 = bw) by congruence. lia.
+  Qed.
+  (* ------------------------------------------------------------------ the body as written *)
+  (* clone_body (the function the regenerated `impl Clone` is tied to, EquivClone.v) is clone_vec with the
+     result's name chosen as the first unused one, without the unwinding glue: in particular its loop does
+     not run out of fuel where clone_vec's theorem applies -- the premise of EquivClone.clone_equiv *)
+  Lemma clone_body_fuel s v l :
+    vabs s v l -> (forall e, In e l -> mem e (clone_panics s) = false) ->
+    fst (clone_body cfg ncap v s) <> OutOfFuel.
+  Proof.
+    intros Hab Hnp.
+    set (w := List.length (vecs s)).
+    assert (Hvw : v <> w).
+    { destruct Hab as [[Hs _]|(b & bl & [Hv _] & _)]; unfold vec_sentinel in *; unfold w;
+        intros ->; match goal with H : nth_error (vecs s) (List.length (vecs s)) = Some _ |- _ =>
+                     apply nth_error_Some_lt_local in H; lia end. }
+    pose proof (clone_vec_spec s v w l Hab Hvw Hnp) as Hspec.
+    unfold clone_body, clone_vec in *.
+    unfold bind at 1. unfold bind at 1 in Hspec.
+    destruct (is_default v s) as [[d| | | | |] s1] eqn:Ed; simpl; try discriminate; try (simpl in Hspec; contradiction).
+    assert (Hs1 : s1 = s).
+    { unfold is_default, bind, vec_handle, ret in Ed. destruct (nth_error (vecs s) v) as [[h|]|]; inversion Ed; reflexivity. }
+    subst s1.
+    assert (Hnew : new_obj cfg s = (match new_vec cfg w s with (Val _, s') => (Val w, s') | (Panicking, s') => (Panicking, s')
+                                    | (UB k, s') => (UB k, s') | (AllocAbort x y, s') => (AllocAbort x y, s')
+                                    | (Abort, s') => (Abort, s') | (OutOfFuel, s') => (OutOfFuel, s') end)).
+    { unfold new_obj, bind, get, ret. fold w. destruct (new_vec cfg w s) as [[u| | | | |] s']; reflexivity. }
+    destruct d.
+    - rewrite Hnew. destruct (new_vec cfg w s) as [[u| | | | |] s'] eqn:En; simpl in *; try discriminate; try contradiction.
+    - unfold bind at 1. rewrite Hnew. unfold bind at 1 in Hspec.
+      destruct (new_vec cfg w s) as [[u| | | | |] s'] eqn:En; simpl in *; try discriminate; try contradiction.
+      unfold building, on_unwind in Hspec. unfold bind at 1.
+      destruct (clone_fill cfg ncap v w s') as [[u'| | | | |] s''] eqn:Ef; simpl in *; try discriminate; try contradiction.
   Qed.
 End Clone.
